@@ -42,3 +42,24 @@ Theorem C12_damage_keeps_the_grid : forall bad text d, loads bad text = IOk d ->
   stage_lengths d = 1 :: map cell_count (filter nonempty (rows_of_text text)).
 Proof. intros bad text d H. exact (proj2 (loads_stage_count bad text d H)). Qed.
 Print Assumptions C12_damage_keeps_the_grid.
+
+(* document level, for EVERY text that imports (and every recogniser oracle): the error list is exactly the list of the
+   ErrorToken nodes - each malformed cell is reported once, nothing else is reported - and every ErrorToken carries the
+   number of its line (the stage of its node = the count of non-empty lines up to it) *)
+From KV Require Import ErrorProofs.
+Theorem C12_errors_reported_once_with_line : forall bad text d, loads bad text = IOk d ->
+  NoDup (d_errors d) /\
+  (forall id, In id (d_errors d) <-> id < List.length (d_nodes d) /\ exists e l, n_tok (get_node d id) = Some (TError e l)) /\
+  (forall id e l, n_tok (get_node d id) = Some (TError e l) -> id < List.length (d_nodes d) -> l = n_stage (get_node d id)).
+Proof. exact errors_reported_once. Qed.
+Print Assumptions C12_errors_reported_once_with_line.
+
+(* the recogniser model never builds an ErrorToken itself: only rejected cells become one *)
+Theorem C12_only_rejected_cells_are_errors : forall bad h s t, import_cell bad h s = RTok t -> tok_not_error t = true.
+Proof. exact import_cell_not_error. Qed.
+Print Assumptions C12_only_rejected_cells_are_errors.
+
+(* a malformed cell is exported verbatim under every selection, converter and encoding *)
+Theorem C12_error_exported_verbatim : forall keep conv e l, export_token keep conv (TError e l) = Ok e.
+Proof. exact error_token_verbatim. Qed.
+Print Assumptions C12_error_exported_verbatim.
